@@ -160,10 +160,10 @@ def wrap_paragraph_lines(
     """
     lines: list[str] = []
 
-    # Handle width <= 0 as "no wrapping".
+    # Handle width <= 0 as "no wrapping": a single line. Whitespace (including newlines) is
+    # collapsed as it is when wrapping, where words are split and rejoined with single spaces.
     if width <= 0:
-        if replace_whitespace:
-            text = re.sub(r"\s+", " ", text)
+        text = re.sub(r"\s+", " ", text)
         if drop_whitespace:
             text = text.strip()
         return [text] if text else []
